@@ -11,7 +11,7 @@ git -C /repo worktree remove --force "$wt" 2>/dev/null
 git -C /repo worktree add -q --detach "$wt" "$base" || exit 3
 tags=""
 if [ -n "$vec" ]; then
-  echo 'replace github.com/blevesearch/go-faiss => /root/seedwt/faissdouble' >> "$wt/go.mod"
+  echo 'replace github.com/blevesearch/go-faiss => /verif/fakefaiss' >> "$wt/go.mod"
   tags="-tags vectors"
 fi
 demo_cmd=$(python3 -c "import json,sys; print(json.load(open('$out/meta.json')).get('demo_cmd',''))" 2>/dev/null)
